@@ -167,8 +167,13 @@ class WritePathStores:
                                     changed = True
                             continue
                         self._callers.setdefault(g, set()).add(f)
+                        bound_recv = g.param_names[0] if (g.cls is not None and g.parent is None and
+                                                          g.kind != "staticmethod" and g.param_names) else None
                         for p, v in amap.items():
-                            if p in ("self", "cls") and v == SELF:
+                            if p == bound_recv:
+                                # the receiver is an object, not a value: what it holds is tracked per field (an object
+                                # reached through a write-derived container - the record generator - is not itself
+                                # computed from the arguments of write)
                                 continue
                             if p not in self.derived_params[g] and self.is_derived(v, f):
                                 self.derived_params[g].add(p)
